@@ -183,6 +183,7 @@ PLAN["C17"] = {
     "pkg": "c17",
     "tests": [
         {"name": "TestLegacyMigration", "quick": (480000, 8), "thorough": (24000000, 16)},
+        {"name": "TestContextReferences", "quick": (40000, 4), "thorough": (2000000, 8)},
     ],
     "budget": {"quick": 600, "thorough": 5400},
     "rule": "typed legacy (Excellent1) syntax trees: numbers, strings (doubled quotes, backslashes), booleans, context references, all "
